@@ -1801,7 +1801,16 @@ fn job_skip_forward(rng: &mut Rng, variant: usize) -> Fals {
         Some(p) => p,
         None => return f,
     };
-    spec.connect = vec![(a, bb)];
+    let mut conns = vec![(a, bb)];
+    // every other variant: the same source feeds a second (and third) target - same element count, not a == b
+    if variant % 2 == 1 && a != bb {
+        for b2 in (a + 1)..depth {
+            if b2 != bb && conns.len() < 3 && shapes[b2].numel() == shapes[a].numel() && rng.chance(2, 3) {
+                conns.push((a, b2));
+            }
+        }
+    }
+    spec.connect = conns.clone();
     let n = match catch_unwind(AssertUnwindSafe(|| spec.build())) {
         Ok(n) => n,
         Err(_) => return f, // acceptance by the builder is checked in (a)
@@ -1833,7 +1842,7 @@ fn job_skip_forward(rng: &mut Rng, variant: usize) -> Fals {
         let mut pres = vec![];
         for i in 0..depth {
             let o = ordinary[i].clone();
-            let xin = if i == bb {
+            let xin = if let Some(&(a, _)) = conns.iter().find(|c| c.1 == i) {
                 let s = flat_of(&ordinary[a]); // a < b: the input fed to layer a is its ordinary input; a == b: likewise
                 let of = flat_of(&o);
                 assert_eq!(s.len(), of.len());
@@ -1858,6 +1867,18 @@ fn job_skip_forward(rng: &mut Rng, variant: usize) -> Fals {
         format!("{}; first differing layer {}: library pre {} post {}; expected pre {} post {}", desc(), i,
                 pre.get(i).map_or("-".into(), show_t), post.get(i + 1).map_or("-".into(), show_t), show_t(&hpre[i]), show_t(&hpost[i + 1]))
     });
+    // the observable output: predict and predict_batch return the last output of that composition
+    let pkey = format!("skip-predict/{:?}/{}{}", acc, cross, if conns.len() > 1 { "/shared-source" } else { "" });
+    let pr = catch_unwind(AssertUnwindSafe(|| (n.predict(&x), n.predict_batch(&vec![&x, &x]))));
+    match pr {
+        Ok((p, pb)) => {
+            let okp = close(&p, &hpost[depth]) && pb.len() == 2 && pb.iter().all(|q| close(q, &hpost[depth]));
+            f.check(&pkey, okp, "predict / predict_batch of a network with skip connections differ from feeding every target with acc(ordinary input, input of its source)", || {
+                format!("{}; connections {:?}; predict {}; predict_batch {:?}; expected {}", desc(), conns, show_t(&p), pb.iter().map(show_t).collect::<Vec<_>>(), show_t(&hpost[depth]))
+            });
+        }
+        Err(_) => f.check(&pkey, false, "predict panicked on a network with valid skip connections", desc),
+    }
     f
 }
 
